@@ -11,14 +11,14 @@ T=/tmp/pgcov_$$
 B=$(dirname "$(rustup +nightly which rustc)")/../lib/rustlib/x86_64-unknown-linux-gnu/bin
 mkdir -p $T/raw
 cd $V/harness
-CARGO_NET_OFFLINE=true CARGO_TARGET_DIR=$T/target RUSTFLAGS="-C instrument-coverage --cfg pubgrub_verif" \
+LLVM_PROFILE_FILE=$T/raw/build_%p.profraw CARGO_NET_OFFLINE=true CARGO_TARGET_DIR=$T/target RUSTFLAGS="-C instrument-coverage --cfg pubgrub_verif" \
   cargo +nightly build --release --offline >/dev/null 2>&1
 for p in C01 C02 C03 C04 C05 C06 C07 C08 C09 C10 C11 C12 C13 C14 C15 C16 C17 C18 C19 C20; do
   mkdir -p $T/out_$p
   LLVM_PROFILE_FILE=$T/raw/$p.profraw $T/target/release/pgharness gen $p $TIER 1 $T/out_$p >/dev/null 2>&1 &
 done
 wait
-$B/llvm-profdata merge -sparse $T/raw/*.profraw -o $T/all.profdata
+rm -f $T/raw/build_*.profraw; $B/llvm-profdata merge -sparse $T/raw/*.profraw -o $T/all.profdata
 OUT=$V/notes/coverage_$TIER.txt
 {
   echo "# coverage of /repo/src by the correspondence inputs, tier=$TIER, seed=1, release build, repo $(git -C /repo rev-parse --short HEAD)"
